@@ -11,6 +11,7 @@ instant at which the forward lookup switches type".
 import TzVerif.Model.TimeZone
 import TzVerif.Spec.Zone
 import TzVerif.Proofs.Leap
+import TzVerif.Proofs.SrcEqZone
 
 namespace TzVerif.C12
 open TzVerif.Model
@@ -73,5 +74,27 @@ theorem legacy_counterexample :
 /-- non-vacuity: a real-shaped table (two insertions 28 days − 1 s apart) satisfies the hypotheses -/
 example : Spec.LeapWF [⟨78796800, 1⟩, ⟨78796800 + 2419199, 2⟩] := by
   simp [Spec.LeapWF, Spec.LeapStepsOK]
+
+/-! ### The same about the source text
+`TzVerif.Src.*` is the Rust source translated to Lean on every run (tools/rs2lean.py, DESIGN §13); the
+equalities below tie every theorem of this file, which is about the model, to the code as it is now. -/
+
+theorem translated_source_is_the_model :
+    (∀ (z : TimeZone) u, Src.TimeZoneRef.unix_time_to_unix_leap_time z u = unixTimeToUnixLeapTime z.leapSeconds u) ∧
+    (∀ (z : TimeZone) T, Src.TimeZoneRef.unix_leap_time_to_unix_time z T = unixLeapTimeToUnixTime z.leapSeconds T) ∧
+    (∀ (l : List LeapSecond) x, Proofs.SrcEq.bsOfExcept (Src.binary_search_leap_seconds l x) = binarySearch (l.map (·.unixLeapTime)) x) :=
+  ⟨Proofs.SrcEq.unix_time_to_unix_leap_time_eq, Proofs.SrcEq.unix_leap_time_to_unix_time_eq, Proofs.SrcEq.binary_search_leap_seconds_eq⟩
+
+/-- the Galois connection about the translated forward conversion -/
+theorem takes_effect_exactly_src (z : TimeZone) (hwf : Spec.LeapWF z.leapSeconds) (u k T : Int)
+    (h : Src.TimeZoneRef.unix_time_to_unix_leap_time z u = .ok k) : T ≤ k ↔ Spec.toUtc z.leapSeconds T ≤ u :=
+  takes_effect_exactly z.leapSeconds hwf u k T (Proofs.SrcEq.unix_time_to_unix_leap_time_eq z u ▸ h)
+
+theorem to_utc_correct_src (z : TimeZone) (hwf : Spec.LeapWF z.leapSeconds) (T : Int) :
+    Src.TimeZoneRef.unix_leap_time_to_unix_time z T =
+      (if T = i64Min then .error .outOfRange
+       else if i64Min ≤ Spec.toUtc z.leapSeconds T ∧ Spec.toUtc z.leapSeconds T ≤ i64Max then .ok (Spec.toUtc z.leapSeconds T)
+       else .error .outOfRange) := by
+  rw [Proofs.SrcEq.unix_leap_time_to_unix_time_eq]; exact to_utc_correct z.leapSeconds hwf T
 
 end TzVerif.C12
